@@ -770,6 +770,8 @@ PinToOneCore()
   sched_setaffinity(0, sizeof one, &one);
 }
 
+void RestoreStatics();
+
 // run one execution; returns false when a fatal violation stopped it
 bool
 RunOnce(const std::vector<uint8_t> &prefix)
@@ -788,6 +790,7 @@ RunOnce(const std::vector<uint8_t> &prefix)
   G.exec_viol_count = 0;
   G.done.store(0);
   ArenaReset();
+  RestoreStatics();
   G.fatal = false;
   G.th = new VThread[kMaxThreads];
   for (int i = 0; i < G.n; ++i) {
@@ -1110,6 +1113,12 @@ Stat(int tid)
   return G.th[tid].stat;
 }
 
+bool
+HasFinished(int tid)
+{
+  return G.th != nullptr && G.th[tid].st == S_FINISHED;
+}
+
 uint64_t &
 HbKnown(int tid)
 {
@@ -1170,11 +1179,54 @@ Note(const char *s)
 /*==============================================================================================
  * explorer
  *============================================================================================*/
+}  // namespace vs
+
+// writable static data of the library objects (sections renamed by the build, see vlib/driver.py)
+extern "C" {
+extern char __start_repo_data[] __attribute__((weak));
+extern char __stop_repo_data[] __attribute__((weak));
+extern char __start_repo_bss[] __attribute__((weak));
+extern char __stop_repo_bss[] __attribute__((weak));
+}
+
+namespace vs
+{
 namespace
 {
+struct StaticImage {
+  char *start = nullptr;
+  size_t size = 0;
+  char *copy = nullptr;
+};
+StaticImage g_images[2];
+bool g_images_taken = false;
+
+void
+SnapshotStatics()
+{
+  if (g_images_taken) return;
+  g_images_taken = true;
+  char *ranges[2][2] = {{__start_repo_data, __stop_repo_data}, {__start_repo_bss, __stop_repo_bss}};
+  for (int i = 0; i < 2; ++i) {
+    if (ranges[i][0] == nullptr || ranges[i][1] == nullptr || ranges[i][1] <= ranges[i][0]) continue;
+    g_images[i].start = ranges[i][0];
+    g_images[i].size = static_cast<size_t>(ranges[i][1] - ranges[i][0]);
+    g_images[i].copy = static_cast<char *>(malloc(g_images[i].size));
+    memcpy(g_images[i].copy, g_images[i].start, g_images[i].size);
+  }
+}
+
+void
+RestoreStatics()
+{
+  for (auto &im : g_images)
+    if (im.copy != nullptr) memcpy(im.start, im.copy, im.size);
+}
+
 void
 Prepare(const Scenario &scn, const Config &cfg)
 {
+  SnapshotStatics();
   ArenaInit();
   InstallHandlers();
   PinToOneCore();
